@@ -4,7 +4,7 @@
 From Coq Require Import Lia.
 From Delb.Base Require Import PyStr PyStrFacts.
 From Delb.Tree Require Import ATree ITree.
-From Delb.XPath Require Import Ast Nav FnLang Eval Ref Subset.
+From Delb.XPath Require Import Ast Nav FnLang Num Eval Ref Subset.
 From Delb.Gen Require Import GenXEval.
 
 (* ---------------------------------------------------------------- positions, de-duplication *)
@@ -162,14 +162,75 @@ Proof.
 Qed.
 
 (* ---------------------------------------------------------------- predicate expressions *)
-Definition head_or_empty (l : list str) : str := match l with s :: _ => s | [] => [] end.
-Definition vrel (t : ty) (v : pyval) (rv : rval) : Prop :=
-  match t with
-  | TNum => exists n, v = PInt n /\ rv = RNum n
-  | TStr => exists s, v = PStr s /\ rv = RStr s
-  | TBool => exists b, v = PBool b /\ rv = RBool b
-  | TAttr => exists l, v = PStr (head_or_empty l) /\ rv = RAttrs l /\ (l = [] \/ exists s, l = [s])
-  end.
+Arguments py_number : simpl never.
+Arguments xpath_number : simpl never.
+Arguments num_compare : simpl never.
+
+(* ---- string -> number: _to_number and XPath's number() agree on strings without exotic whitespace / digits *)
+Lemma lstrip_by_ext ws1 ws2 : forall s, (forall c, In c s -> ws1 c = ws2 c) -> lstrip_by ws1 s = lstrip_by ws2 s.
+Proof.
+  induction s as [|c s IH]; intro H; [reflexivity|]. cbn. rewrite (H c (or_introl eq_refl)).
+  destruct (ws2 c); [apply IH; intros; apply H; right; assumption|reflexivity].
+Qed.
+Lemma lstrip_by_incl ws : forall s c, In c (lstrip_by ws s) -> In c s.
+Proof. induction s as [|x s IH]; intros c H; cbn in H; [contradiction|]. destruct (ws x); [right; auto|exact H]. Qed.
+Lemma strip_by_ext ws1 ws2 s : (forall c, In c s -> ws1 c = ws2 c) -> strip_by ws1 s = strip_by ws2 s.
+Proof.
+  intro H. unfold strip_by. rewrite (lstrip_by_ext ws1 ws2 s H). f_equal. apply lstrip_by_ext.
+  intros c Hc. apply in_rev in Hc. apply lstrip_by_incl in Hc. auto.
+Qed.
+Lemma strip_by_incl ws s c : In c (strip_by ws s) -> In c s.
+Proof. unfold strip_by. intro H. apply in_rev in H. apply lstrip_by_incl in H. apply in_rev in H. apply lstrip_by_incl in H. exact H. Qed.
+Lemma digits_val_ext d1 d2 : forall l acc, (forall c, In c l -> d1 c = d2 c) -> digits_val d1 acc l = digits_val d2 acc l.
+Proof.
+  induction l as [|c l IH]; intros acc H; [reflexivity|]. cbn. rewrite (H c (or_introl eq_refl)).
+  destruct (d2 c); [apply IH; intros; apply H; right; assumption|reflexivity].
+Qed.
+Lemma split_dot_incl : forall s a b, split_dot s = (a, b) ->
+  (forall c, In c a -> In c s) /\ (forall f, b = Some f -> forall c, In c f -> In c s).
+Proof.
+  induction s as [|x s IH]; intros a b H; cbn in H.
+  - inversion H; subst. split; [tauto|discriminate].
+  - destruct (N.eqb x 46).
+    + inversion H; subst. split; [intros c []|]. intros f Hf c Hc. inversion Hf; subst. right. exact Hc.
+    + destruct (split_dot s) as [a' b'] eqn:E. inversion H; subst. destruct (IH a' b eq_refl) as [I1 I2]. split.
+      * intros c [->|Hc]; [left; reflexivity|right; auto].
+      * intros f Hf c Hc. right. eapply I2; eauto.
+Qed.
+Lemma parse_number_ext ws1 d1 ws2 d2 s :
+  (forall c, In c s -> ws1 c = ws2 c /\ d1 c = d2 c) -> parse_number ws1 d1 s = parse_number ws2 d2 s.
+Proof.
+  intro H. unfold parse_number. rewrite (strip_by_ext ws1 ws2 s) by (intros c Hc; apply H; exact Hc).
+  pose proof (strip_by_incl ws2 s) as Ht. set (t := strip_by ws2 s) in *.
+  assert (Hb : forall neg body, (match t with c :: r => if N.eqb c 45 then (true, r) else (false, t) | [] => (false, t) end) = (neg, body) ->
+                                forall c, In c body -> In c s).
+  { intros neg body E c Hc. apply Ht. destruct t as [|x r]; [inversion E; subst; exact Hc|].
+    destruct (N.eqb x 45); inversion E; subst; [right; exact Hc|exact Hc]. }
+  destruct (match t with c :: r => if N.eqb c 45 then (true, r) else (false, t) | [] => (false, t) end) as [neg body] eqn:E.
+  specialize (Hb neg body eq_refl). destruct (split_dot body) as [ip fp] eqn:Es.
+  destruct (split_dot_incl body ip fp Es) as [I1 I2].
+  destruct fp as [f|].
+  - destruct (null ip && null f); [reflexivity|].
+    rewrite (digits_val_ext d1 d2 (ip ++ f)); [reflexivity|].
+    intros c Hc. apply H. apply Hb. apply in_app_or in Hc as [Hc|Hc]; [auto|eapply I2; eauto].
+  - destruct ip as [|x ip']; [reflexivity|].
+    rewrite (digits_val_ext d1 d2 (x :: ip')); [reflexivity|]. intros c Hc. apply H. apply Hb. auto.
+Qed.
+Lemma opt_N_eqb_eq a b : opt_N_eqb a b = true -> a = b.
+Proof. destruct a, b; cbn; try discriminate; [intro H; apply N.eqb_eq in H; congruence|reflexivity]. Qed.
+Lemma py_number_clean s : num_clean s = true -> py_number s = xpath_number s.
+Proof.
+  unfold num_clean, py_number, xpath_number. rewrite forallb_forall. intro H. apply parse_number_ext.
+  intros c Hc. specialize (H c Hc). apply andb_prop in H as [H1 H2]. split; [apply Bool.eqb_prop; exact H1|apply opt_N_eqb_eq; exact H2].
+Qed.
+
+(* ---- corresponding values *)
+Inductive vrel : ty -> pyval -> rval -> Prop :=
+| vr_num n : vrel TNum (PInt n) (RNum n)
+| vr_str s : num_clean s = true -> vrel TStr (PStr s) (RStr s)
+| vr_bool b : vrel TBool (PBool b) (RBool b)
+| vr_attr_none : vrel TAttr PNone (RAttrs [])                       (* no such attribute: None / the empty node-set *)
+| vr_attr_some v : num_clean v = true -> vrel TAttr (PStr v) (RAttrs [v]).
 
 Definition attr_list (ns l : str) (c : nd) : list str :=
   if is_tagnode c then match get_attr ns l (tag_attrs c) with Some v => [v] | None => [] end else [].
@@ -185,9 +246,6 @@ Proof.
 Qed.
 Lemma unknown_prefix_ok m p : pfx_ok m p = true -> unknown_prefix m p = false.
 Proof. unfold pfx_ok, unknown_prefix. destruct p as [q|]; [|reflexivity]. destruct (ns_get m q); [reflexivity|discriminate]. Qed.
-
-Lemma null_str_eqb (s : str) : str_eqb [] s = null s.
-Proof. destruct s; reflexivity. Qed.
 
 (* without class (j) the attribute delb finds is the one with that expanded name *)
 Lemma delb_attr_is_ref m p l c :
@@ -214,31 +272,34 @@ Proof.
            end; discriminate.
 Qed.
 
-Lemma vrel_attr_value m p l c :
-  is_tagnode c = true -> attr_j m p c = false -> pfx_ok m p = true ->
-  vrel TAttr (PStr (opt_default [] (delb_attr (ipayload (snd c)) (attr_ns m p) l))) (RAttrs (attr_list (res_ns m p) l c)).
+Lemma attr_value_eval m p a c pos size :
+  attr_j m p c = false -> bound m (AttributeValue p a) = true ->
+  d_expr m (AttributeValue p a) c pos size = Ok (match attr_of m p a c with Some v => PStr v | None => PNone end) /\
+  r_expr m (AttributeValue p a) c pos size = Some (RAttrs (match attr_of m p a c with Some v => [v] | None => [] end)).
 Proof.
-  intros Ht Hj Hp. rewrite (delb_attr_is_ref m p l c Ht Hj Hp). unfold attr_list. rewrite Ht.
-  destruct (get_attr (res_ns m p) l (tag_attrs c)) as [v|]; cbn.
-  - exists [v]. repeat split. right. eauto.
-  - exists []. repeat split. left. reflexivity.
+  cbn [bound d_expr r_expr]. intros Hj Hb.
+  rewrite (unknown_prefix_ok _ _ Hb), (r_attr_bound _ _ _ _ Hb), attr_list_of. split; [|reflexivity].
+  unfold attr_of. destruct (is_tagnode c) eqn:Ht; [|reflexivity].
+  rewrite (delb_attr_is_ref m p a c Ht Hj Hb). reflexivity.
 Qed.
 
-Lemma truthy_to_bool t v rv : vrel t v rv -> (t = TAttr -> rv <> RAttrs [[]]) -> truthy v = to_bool rv.
-Proof.
-  destruct t; cbn; intros H Hc.
-  - destruct H as (n & -> & ->). reflexivity.
-  - destruct H as (s & -> & ->). reflexivity.
-  - destruct H as (b & -> & ->). reflexivity.
-  - destruct H as (l & -> & -> & [->|[s ->]]); [reflexivity|]. cbn.
-    destruct s; [exfalso; apply (Hc eq_refl); reflexivity|reflexivity].
-Qed.
+Lemma truthy_to_bool t v rv : vrel t v rv -> t <> TAttr -> truthy v = to_bool rv.
+Proof. intros H Hn. inversion H; subst; try reflexivity; congruence. Qed.
 
-Lemma stringy_value t v rv : stringy t = true -> vrel t v rv -> exists s, v = PStr s /\ to_str rv = Some s.
+Lemma orb_false_r' b : b || false = b. Proof. destruct b; reflexivity. Qed.
+
+(* the comparison operators: BooleanOperator.evaluate computes what section 3.4 says *)
+Lemma cmp_agree ta tb va vb ra rb c :
+  vrel ta va ra -> vrel tb vb rb ->
+  (ty_eqb ta TAttr && ty_eqb tb TBool) || (ty_eqb ta TBool && ty_eqb tb TAttr) = false ->
+  py_compare c va vb = r_compare c ra rb.
 Proof.
-  destruct t; cbn; try discriminate; intros _ H.
-  - destruct H as (s & -> & ->). eauto.
-  - destruct H as (l & -> & -> & _). exists (head_or_empty l). split; [reflexivity|]. destruct l; reflexivity.
+  intros Ha Hb Hx. inversion Ha; subst; inversion Hb; subst; try discriminate Hx; clear Ha Hb Hx;
+    destruct c; unfold py_compare, r_compare, atom_compare;
+    cbn [is_pybool is_pyint is_rbool is_rnum orb Eval.to_number to_number truthy to_bool existsb null negb];
+    rewrite ?orb_false_r';
+    repeat match goal with H : num_clean _ = true |- _ => rewrite ?(py_number_clean _ H); clear H end;
+    reflexivity.
 Qed.
 
 Lemma f_lookup_position : f_lookup xpath_functions FN_position = Some {| f_nparams := 0; f_variadic := false; f_body := FCtxPosition |}.
@@ -254,190 +315,99 @@ Proof. reflexivity. Qed.
 Lemma f_lookup_starts_with : f_lookup xpath_functions FN_starts_with = Some {| f_nparams := 2; f_variadic := false; f_body := FStartsWith 0 1 |}.
 Proof. reflexivity. Qed.
 
-Lemma ty_str_inv e : ty_of e = Some TStr -> exists s, e = AnyValue (VStr s).
-Proof.
-  destruct e as [[s|n]|p l|p l|o l r|name args]; cbn; try discriminate; eauto.
-  - destruct (ty_of l), (ty_of r); try discriminate.
-    destruct o; repeat match goal with |- (if ?b then _ else _) = _ -> _ => destruct b end; discriminate.
-  - repeat match goal with
-           | |- (if ?b then _ else _) = _ -> _ => destruct b
-           | |- match ?x with _ => _ end = _ -> _ => destruct x
-           end; discriminate.
-Qed.
-
-Lemma attr_value_eval m p a c pos size :
-  hazard m (AttributeValue p a) c = false -> bound m (AttributeValue p a) = true ->
-  d_expr m (AttributeValue p a) c pos size = Ok (PStr (head_or_empty (attr_list (res_ns m p) a c))) /\
-  r_expr m (AttributeValue p a) c pos size = Some (RAttrs (attr_list (res_ns m p) a c)).
-Proof.
-  cbn [hazard bound d_expr r_expr]. intros Hj Hb.
-  rewrite (unknown_prefix_ok _ _ Hb), (r_attr_bound _ _ _ _ Hb). split; [|reflexivity].
-  unfold attr_list. destruct (is_tagnode c) eqn:Ht; [|reflexivity].
-  rewrite (delb_attr_is_ref m p a c Ht Hj Hb).
-  destruct (get_attr (res_ns m p) a (tag_attrs c)); reflexivity.
-Qed.
-
-Lemma attr_list_cases m p a c :
-  (attr_list (res_ns m p) a c = [] /\ attr_missing m p a c = true /\ attr_empty m p a c = false) \/
-  (exists v, attr_list (res_ns m p) a c = [v] /\ attr_missing m p a c = false /\ attr_empty m p a c = null v).
-Proof.
-  rewrite attr_list_of. unfold attr_missing, attr_empty.
-  destruct (attr_of m p a c) as [v|]; [right; exists v; auto|left; auto].
-Qed.
-
-Lemma orb_false_r' b : b || false = b. Proof. destruct b; reflexivity. Qed.
-
 Ltac inv_ex :=
   repeat match goal with
          | H : exists _, _ |- _ => destruct H
          | H : _ /\ _ |- _ => destruct H
          end.
 
-Lemma str_eqb_sym_nil (s : str) : str_eqb s [] = null s.
-Proof. destruct s; reflexivity. Qed.
-
 Lemma d_expr_binop m o l r c pos size :
   d_expr m (BooleanOperator o l r) c pos size =
   bind (d_expr m l c pos size) (fun a => bind (d_expr m r c pos size) (fun b => py_binop o a b)).
 Proof. reflexivity. Qed.
-
-Lemma eq_stringy m o l r a b c pos size :
-  (o = OpEq \/ o = OpNe) -> ty_of l = Some a -> ty_of r = Some b -> stringy a = true -> stringy b = true ->
-  hazard m l c = false -> hazard m r c = false -> eq_hazard m o l r c = false ->
-  bound m l = true -> bound m r = true ->
-  exists bb, d_expr m (BooleanOperator o l r) c pos size = Ok (PBool bb) /\
-             r_expr m (BooleanOperator o l r) c pos size = Some (RBool bb).
-Proof.
-  intros Ho Ha Hb Sa Sb Hhl Hhr He Hbl Hbr.
-  destruct a; try discriminate Sa; destruct b; try discriminate Sb.
-  - apply ty_str_inv in Ha as (s1 & ->). apply ty_str_inv in Hb as (s2 & ->).
-    destruct Ho as [-> | ->]; cbn; rewrite ?orb_false_r'; eauto.
-  - apply ty_str_inv in Ha as (s1 & ->). apply ty_attr_inv in Hb as (q & k & ->).
-    destruct (attr_value_eval m q k c pos size Hhr Hbr) as (Hd & Hr).
-    assert (G : forall o', r_expr m (BooleanOperator o' (AnyValue (VStr s1)) (AttributeValue q k)) c pos size =
-                           match o' with OpAnd | OpOr => r_expr m (BooleanOperator o' (AnyValue (VStr s1)) (AttributeValue q k)) c pos size
-                           | _ => option_map RBool (r_compare o' (RStr s1) (RAttrs (attr_list (res_ns m q) k c))) end).
-    { intro o'. destruct o'; try reflexivity; cbn [r_expr] in *; rewrite Hr; reflexivity. }
-    rewrite d_expr_binop, Hd. cbn [bind d_expr].
-    destruct (attr_list_cases m q k c) as [(E & Hm & _) | (v & E & Hm & _)];
-      destruct Ho as [-> | ->]; rewrite G, E; cbn in He; rewrite Hm in He; cbn in He |- *.
-    + rewrite str_eqb_sym_nil. destruct (null s1); [discriminate He|eauto].
-    + rewrite str_eqb_sym_nil. destruct (null s1); [eauto|discriminate He].
-    + rewrite ?orb_false_r'. eauto.
-    + rewrite ?orb_false_r'. eauto.
-  - apply ty_attr_inv in Ha as (q & k & ->). apply ty_str_inv in Hb as (s2 & ->).
-    destruct (attr_value_eval m q k c pos size Hhl Hbl) as (Hd & Hr).
-    assert (G : forall o', r_expr m (BooleanOperator o' (AttributeValue q k) (AnyValue (VStr s2))) c pos size =
-                           match o' with OpAnd | OpOr => r_expr m (BooleanOperator o' (AttributeValue q k) (AnyValue (VStr s2))) c pos size
-                           | _ => option_map RBool (r_compare o' (RAttrs (attr_list (res_ns m q) k c)) (RStr s2)) end).
-    { intro o'. destruct o'; try reflexivity; cbn [r_expr] in *; rewrite Hr; reflexivity. }
-    rewrite d_expr_binop, Hd. cbn [bind d_expr].
-    destruct (attr_list_cases m q k c) as [(E & Hm & _) | (v & E & Hm & _)];
-      destruct Ho as [-> | ->]; rewrite G, E; cbn in He; rewrite Hm in He; cbn in He |- *.
-    + destruct s2; cbn in He |- *; try discriminate He; eauto.
-    + destruct s2; cbn in He |- *; try discriminate He; eauto.
-    + rewrite ?orb_false_r'. eauto.
-    + rewrite ?orb_false_r'. eauto.
-  - apply ty_attr_inv in Ha as (q1 & k1 & ->). apply ty_attr_inv in Hb as (q2 & k2 & ->).
-    destruct (attr_value_eval m q1 k1 c pos size Hhl Hbl) as (Hd1 & Hr1).
-    destruct (attr_value_eval m q2 k2 c pos size Hhr Hbr) as (Hd2 & Hr2).
-    assert (G : forall o', r_expr m (BooleanOperator o' (AttributeValue q1 k1) (AttributeValue q2 k2)) c pos size =
-                           match o' with OpAnd | OpOr => r_expr m (BooleanOperator o' (AttributeValue q1 k1) (AttributeValue q2 k2)) c pos size
-                           | _ => option_map RBool (r_compare o' (RAttrs (attr_list (res_ns m q1) k1 c)) (RAttrs (attr_list (res_ns m q2) k2 c))) end).
-    { intro o'. destruct o'; try reflexivity; cbn [r_expr] in *; rewrite Hr1, Hr2; reflexivity. }
-    rewrite d_expr_binop, Hd1, Hd2. cbn [bind].
-    assert (He' : attr_missing m q1 k1 c || attr_missing m q2 k2 c = false) by (destruct Ho as [-> | ->]; exact He).
-    apply orb_false_elim in He' as [M1 M2].
-    destruct (attr_list_cases m q1 k1 c) as [(E1 & Hm1 & _) | (v1 & E1 & _)]; [congruence|].
-    destruct (attr_list_cases m q2 k2 c) as [(E2 & Hm2 & _) | (v2 & E2 & _)]; [congruence|].
-    destruct Ho as [-> | ->]; rewrite G, E1, E2; cbn; rewrite ?orb_false_r'; eauto.
-Qed.
-
 Lemma str_is_eq a b : str_is a b = true -> a = b.
 Proof. apply str_eqb_eq. Qed.
+
+(* a function receives "" for None *)
+Definition none_to_empty (v : pyval) : pyval := match v with PNone => PStr [] | _ => v end.
+Lemma stringy_value t v rv : stringy t = true -> vrel t v rv -> exists s, none_to_empty v = PStr s /\ to_str rv = Some s.
+Proof. intros S H. inversion H; subst; try discriminate S; cbn; eauto. Qed.
+Lemma d_expr_fn1 m name x c pos size v : d_expr m x c pos size = Ok v ->
+  d_expr m (Function name [x]) c pos size = call_fn name [none_to_empty v] c pos size.
+Proof. intro H. cbn [d_expr]. rewrite H. reflexivity. Qed.
+Lemma d_expr_fn2 m name x y c pos size v w : d_expr m x c pos size = Ok v -> d_expr m y c pos size = Ok w ->
+  d_expr m (Function name [x; y]) c pos size = call_fn name [none_to_empty v; none_to_empty w] c pos size.
+Proof. intros H1 H2. cbn [d_expr]. rewrite H1, H2. reflexivity. Qed.
 
 Lemma expr_agrees m e :
   forall t c pos size, ty_of e = Some t -> hazard m e c = false -> bound m e = true ->
   exists v rv, d_expr m e c pos size = Ok v /\ r_expr m e c pos size = Some rv /\ vrel t v rv.
 Proof.
   induction e as [[s|n]|p l|p l|o l r IHl IHr|name args IH] using expr_ind'; intros t c pos size Hty Hh Hb.
-  - cbn in Hty; inversion Hty; subst. exists (PStr s), (RStr s). cbn. eauto.
-  - cbn in Hty; inversion Hty; subst. exists (PInt n), (RNum n). cbn. eauto.
-  - cbn in Hty; inversion Hty; subst.
-    destruct (attr_value_eval m p l c pos size Hh Hb) as (Hd & Hr).
-    eexists _, _. split; [exact Hd|]. split; [exact Hr|]. cbn.
-    exists (attr_list (res_ns m p) l c). repeat split.
-    rewrite attr_list_of. destruct (attr_of m p l c); eauto.
+  - cbn in Hty; inversion Hty; subst. cbn in Hh. apply negb_false_iff in Hh.
+    exists (PStr s), (RStr s). repeat split. constructor. exact Hh.
+  - cbn in Hty; inversion Hty; subst. exists (PInt n), (RNum n). repeat split. constructor.
+  - (* AttributeValue *)
+    cbn in Hty; inversion Hty; subst. cbn [hazard] in Hh. apply orb_false_elim in Hh as [Hj Hc].
+    destruct (attr_value_eval m p l c pos size Hj Hb) as (Hd & Hr).
+    eexists _, _. split; [exact Hd|]. split; [exact Hr|].
+    destruct (attr_of m p l c) as [v|]; [constructor; apply negb_false_iff; exact Hc|constructor].
   - (* HasAttribute *)
     cbn in Hty; inversion Hty; subst. cbn [hazard bound] in Hh, Hb. cbn [d_expr r_expr].
     rewrite (unknown_prefix_ok _ _ Hb), (r_attr_bound _ _ _ _ Hb). unfold attr_list.
     destruct (is_tagnode c) eqn:Ht.
     + rewrite (delb_attr_is_ref m p l c Ht Hh Hb).
-      destruct (get_attr (res_ns m p) l (tag_attrs c)); eexists _, _; cbn; eauto.
-    + eexists _, _; cbn; eauto.
+      destruct (get_attr (res_ns m p) l (tag_attrs c)); eexists _, _; repeat split; constructor.
+    + eexists _, _; repeat split; constructor.
   - (* BooleanOperator *)
     cbn [ty_of] in Hty. destruct (ty_of l) as [a|] eqn:Ha; [|discriminate]. destruct (ty_of r) as [b|] eqn:Hbt; [|discriminate].
-    cbn [hazard] in Hh. apply orb_false_elim in Hh as [Hh He]. apply orb_false_elim in Hh as [Hhl Hhr].
+    cbn [hazard] in Hh. apply orb_false_elim in Hh as [Hhl Hhr].
     cbn [bound] in Hb. apply andb_prop in Hb as [Hbl Hbr].
+    destruct (IHl a c pos size eq_refl Hhl Hbl) as (vl & rl & Hdl & Hrl & Hvl).
+    destruct (IHr b c pos size eq_refl Hhr Hbr) as (vr & rr & Hdr & Hrr & Hvr).
+    rewrite d_expr_binop, Hdl, Hdr. cbn [bind].
     destruct (binop_eqb o OpAnd || binop_eqb o OpOr) eqn:Hao.
-    { assert (Ho' : o = OpAnd \/ o = OpOr) by (destruct o; cbn in Hao; try discriminate; auto).
+    + assert (Ho' : o = OpAnd \/ o = OpOr) by (destruct o; cbn in Hao; try discriminate; auto).
       assert (Hab : negb (ty_eqb a TAttr) && negb (ty_eqb b TAttr) = true /\ t = TBool).
       { destruct Ho' as [-> | ->]; cbn in Hty; destruct (negb (ty_eqb a TAttr) && negb (ty_eqb b TAttr)); try discriminate;
           inversion Hty; auto. }
       destruct Hab as [Hab ->]. apply andb_prop in Hab as [Na Nb].
-      destruct (IHl a c pos size eq_refl Hhl Hbl) as (vl & rl & Hdl & Hrl & Hvl).
-      destruct (IHr b c pos size eq_refl Hhr Hbr) as (vr & rr & Hdr & Hrr & Hvr).
       assert (Tl : truthy vl = to_bool rl) by (apply (truthy_to_bool a); [exact Hvl|intros ->; discriminate Na]).
       assert (Tr : truthy vr = to_bool rr) by (apply (truthy_to_bool b); [exact Hvr|intros ->; discriminate Nb]).
-      rewrite d_expr_binop, Hdl, Hdr. cbn [bind].
-      destruct Ho' as [-> | ->]; cbn [r_expr py_binop]; rewrite Hrl, Hrr, Tl, Tr; eexists _, _; repeat split; cbn; eauto. }
-    destruct (stringy a && stringy b && (binop_eqb o OpEq || binop_eqb o OpNe)) eqn:Hs.
-    { apply andb_prop in Hs as [Hs Ho]. apply andb_prop in Hs as [Sa Sb].
-      assert (Ho' : o = OpEq \/ o = OpNe) by (destruct o; cbn in Ho; try discriminate; auto).
-      assert (t = TBool).
-      { destruct Ho' as [-> | ->]; cbn in Hty; destruct a, b; cbn in *; try discriminate; congruence. }
-      subst t.
-      assert (He' : eq_hazard m o l r c = false) by (destruct Ho' as [-> | ->]; exact He).
-      destruct (eq_stringy m o l r a b c pos size Ho' Ha Hbt Sa Sb Hhl Hhr He' Hbl Hbr) as (bb & Hd & Hr).
-      exists (PBool bb), (RBool bb). cbn [vrel]. eauto. }
-    destruct (IHl a c pos size eq_refl Hhl Hbl) as (vl & rl & Hdl & Hrl & Hvl).
-    destruct (IHr b c pos size eq_refl Hhr Hbr) as (vr & rr & Hdr & Hrr & Hvr).
-    rewrite d_expr_binop, Hdl, Hdr. cbn [bind].
-    destruct o; cbn in Hao; try discriminate Hao; destruct a, b; cbn in Hty, Hs; try discriminate; inversion Hty; subst; clear Hty;
-      cbn [r_expr]; rewrite Hrl, Hrr; cbn in Hvl, Hvr; inv_ex; subst; cbn;
-      eexists _, _; (split; [reflexivity|]); (split; [reflexivity|]); cbn;
-      eexists; (split; [reflexivity|]); f_equal;
-      try solve [ reflexivity | apply N.leb_antisym | symmetry; apply N.leb_antisym
-                | rewrite N.leb_antisym; reflexivity
-                | match goal with |- context [if ?x then _ else _] => destruct x end;
-                  match goal with |- context [if ?x then _ else _] => destruct x end; reflexivity ].
+      destruct Ho' as [-> | ->]; cbn [r_expr py_binop]; rewrite Hrl, Hrr, Tl, Tr; eexists _, _; repeat split; constructor.
+    + assert (Hx : (ty_eqb a TAttr && ty_eqb b TBool) || (ty_eqb a TBool && ty_eqb b TAttr) = false /\ t = TBool).
+      { destruct o; cbn in Hao; try discriminate Hao; cbn in Hty;
+          destruct ((ty_eqb a TAttr && ty_eqb b TBool) || (ty_eqb a TBool && ty_eqb b TAttr)); try discriminate;
+          inversion Hty; auto. }
+      destruct Hx as [Hx ->].
+      destruct o; cbn in Hao; try discriminate Hao; cbn [r_expr py_binop cmp_of cmpop_of]; rewrite Hrl, Hrr;
+        rewrite (cmp_agree a b vl vr rl rr _ Hvl Hvr Hx); eexists _, _; repeat split; constructor.
   - (* Function *)
     cbn [ty_of] in Hty. cbn [hazard] in Hh. apply orb_false_elim in Hh as [Hha Hhc]. cbn [bound] in Hb.
     destruct (str_is name FN_position || str_is name FN_last) eqn:E1.
     { destruct args as [|x args]; [|cbn in Hty; destruct (ty_of x); discriminate].
       inversion Hty; subst. apply orb_prop in E1 as [E|E]; apply str_is_eq in E; subst name.
-      - exists (PInt pos), (RNum pos). cbn. eauto.
-      - exists (PInt size), (RNum size). cbn. eauto. }
+      - exists (PInt pos), (RNum pos). repeat split. constructor.
+      - exists (PInt size), (RNum size). repeat split. constructor. }
     destruct (str_is name FN_not || str_is name FN_boolean) eqn:E2.
     { destruct args as [|x [|y args]]; try (cbn in Hty; repeat match type of Hty with context [ty_of ?z] => destruct (ty_of z) end; discriminate).
       destruct (ty_of x) as [tx|] eqn:Hx; [|discriminate]. inversion Hty; subst.
       inversion IH as [|? ? IHx _]; subst.
       apply orb_false_elim in Hha as [Hhx _]. apply andb_prop in Hb as [Hbx _].
       destruct (IHx tx c pos size Hx Hhx Hbx) as (v & rv & Hd & Hr & Hv).
-      assert (Htb : truthy v = to_bool rv).
-      { apply (truthy_to_bool tx); [exact Hv|]. intros ->. apply ty_attr_inv in Hx as (q & k & ->).
-        cbn in Hhc.
-        destruct (attr_value_eval m q k c pos size Hhx Hbx) as (_ & Hr').
-        rewrite Hr' in Hr. inversion Hr; subst.
-        destruct (attr_list_cases m q k c) as [(E & _) | (w & E & _ & Hem)]; rewrite E; [discriminate|].
-        intro Hc. inversion Hc; subst. rewrite Hhc in Hem. discriminate. }
+      assert (Htb : truthy (none_to_empty v) = to_bool rv).
+      { inversion Hv; subst; try reflexivity. cbn.
+        apply ty_attr_inv in Hx as (q & k & ->). cbn in Hhc.
+        cbn [hazard] in Hhx. apply orb_false_elim in Hhx as [Hj _]. destruct (attr_value_eval m q k c pos size Hj Hbx) as (Hd' & _).
+        rewrite Hd' in Hd. unfold attr_empty in Hhc. destruct (attr_of m q k c) as [w|]; [|discriminate Hd].
+        inversion Hd; subst. rewrite Hhc. reflexivity. }
       apply orb_prop in E2 as [E|E]; apply str_is_eq in E; subst name.
-      - exists (PBool (negb (truthy v))), (RBool (negb (to_bool rv))).
-        split; [cbn [d_expr]; rewrite Hd; reflexivity|]. split; [cbn [r_expr]; rewrite Hr; reflexivity|].
-        cbn. rewrite Htb. eauto.
-      - exists (PBool (truthy v)), (RBool (to_bool rv)).
-        split; [cbn [d_expr]; rewrite Hd; reflexivity|]. split; [cbn [r_expr]; rewrite Hr; reflexivity|].
-        cbn. rewrite Htb. eauto. }
+      - exists (PBool (negb (truthy (none_to_empty v)))), (RBool (negb (to_bool rv))).
+        split; [rewrite (d_expr_fn1 _ _ _ _ _ _ _ Hd); reflexivity|]. split; [cbn [r_expr]; rewrite Hr; reflexivity|].
+        rewrite Htb. constructor.
+      - exists (PBool (truthy (none_to_empty v))), (RBool (to_bool rv)).
+        split; [rewrite (d_expr_fn1 _ _ _ _ _ _ _ Hd); reflexivity|]. split; [cbn [r_expr]; rewrite Hr; reflexivity|].
+        rewrite Htb. constructor. }
     destruct (str_is name FN_contains || str_is name FN_starts_with) eqn:E3; [|discriminate].
     destruct args as [|x [|y [|z args]]]; try (cbn in Hty; repeat match type of Hty with context [ty_of ?z] => destruct (ty_of z) end; discriminate).
     destruct (ty_of x) as [tx|] eqn:Hx; [|discriminate]. destruct (ty_of y) as [ty'|] eqn:Hy; [|discriminate].
@@ -448,14 +418,14 @@ Proof.
     apply andb_prop in Hb as [Hbx Hb]. apply andb_prop in Hb as [Hby _].
     destruct (IHx tx c pos size Hx Hhx Hbx) as (vx & rx & Hdx & Hrx & Hvx).
     destruct (IHy ty' c pos size Hy Hhy Hby) as (vy & ry & Hdy & Hry & Hvy).
-    destruct (stringy_value _ _ _ Sx Hvx) as (sx & -> & Tx). destruct (stringy_value _ _ _ Sy Hvy) as (sy & -> & Ty).
+    destruct (stringy_value _ _ _ Sx Hvx) as (sx & Ex & Tx). destruct (stringy_value _ _ _ Sy Hvy) as (sy & Ey & Ty).
     apply orb_prop in E3 as [E|E]; apply str_is_eq in E; subst name.
     + exists (PBool (py_contains sx sy)), (RBool (py_contains sx sy)).
-      split; [cbn [d_expr]; rewrite Hdx, Hdy; reflexivity|].
-      split; [cbn [r_expr]; rewrite Hrx, Hry; cbn; rewrite Tx, Ty; reflexivity|]. cbn. eauto.
+      split; [rewrite (d_expr_fn2 _ _ _ _ _ _ _ _ _ Hdx Hdy), Ex, Ey; reflexivity|].
+      split; [cbn [r_expr]; rewrite Hrx, Hry; cbn; rewrite Tx, Ty; reflexivity|]. constructor.
     + exists (PBool (py_startswith sx sy)), (RBool (py_startswith sx sy)).
-      split; [cbn [d_expr]; rewrite Hdx, Hdy; reflexivity|].
-      split; [cbn [r_expr]; rewrite Hrx, Hry; cbn; rewrite Tx, Ty; reflexivity|]. cbn. eauto.
+      split; [rewrite (d_expr_fn2 _ _ _ _ _ _ _ _ _ Hdx Hdy), Ex, Ey; reflexivity|].
+      split; [cbn [r_expr]; rewrite Hrx, Hry; cbn; rewrite Tx, Ty; reflexivity|]. constructor.
 Qed.
 
 (* ---------------------------------------------------------------- predicate filtering *)
@@ -464,7 +434,7 @@ Lemma filter_pred_agrees m p size : pred_ok m p = true ->
   exists l, filter_pred m p size pos cs = Ok l /\ r_filter m p size pos cs = Some l /\ incl l cs.
 Proof.
   unfold pred_ok. destruct (ty_of p) as [tt|] eqn:Hty; [|discriminate].
-  intro Hb0. assert (Htt : (tt = TBool \/ tt = TNum) /\ bound m p = true) by (destruct tt; try discriminate Hb0; auto).
+  intro Hb0. assert (Htt : (tt = TBool \/ tt = TNum \/ tt = TStr) /\ bound m p = true) by (destruct tt; try discriminate Hb0; auto).
   destruct Htt as [Htt Hb]. clear Hb0.
   induction cs as [|c cs IH]; intros pos Hh; cbn.
   - exists []. repeat split. apply incl_nil_l.
@@ -472,7 +442,7 @@ Proof.
     destruct (IH (pos + 1)%N (fun c' H => Hh c' (or_intror H))) as (l & Hl & Hrl & Hi).
     rewrite Hd, Hr, Hl, Hrl. cbn [bind].
     assert (Hk : keep_py v pos = keeps rv pos).
-    { destruct Htt as [-> | ->]; cbn in Hv; inv_ex; subst; reflexivity. }
+    { destruct Htt as [-> | [-> | ->]]; inversion Hv; subst; reflexivity. }
     rewrite Hk. destruct (keeps rv pos); eexists; repeat split.
     + apply incl_cons; [left; reflexivity|]. apply incl_tl. exact Hi.
     + apply incl_tl. exact Hi.
